@@ -31,10 +31,23 @@ func main() {
 		lib.Finish(f, res)
 	}
 
-	drv, err := lib.StartDriver(f.Driver)
-	if err != nil {
-		res.Note("driver: %v", err)
-	} else {
+	// phase "wide": position-exhaustive tampering around multiples of the worker count (alone:
+	// it changes GOMAXPROCS)
+	tWide := time.Now()
+	runWide(f, res, nil)
+	res.SetExtra("wide_phase_seconds", time.Since(tWide).Seconds())
+	checkpoint(f, res)
+
+	// hash correspondence and fixtures run next to the first tamper pass (own driver process)
+	var side sync.WaitGroup
+	side.Add(1)
+	go func() {
+		defer side.Done()
+		drv, err := lib.StartDriver(f.Driver)
+		if err != nil {
+			res.Note("driver: %v", err)
+			return
+		}
 		t0 := time.Now()
 		runHashCorrespondence(f, res, drv, r.Fork(1))
 		t1 := time.Now()
@@ -42,14 +55,7 @@ func main() {
 		drv.Close()
 		runClassFixtures(f, res)
 		res.SetExtra("phase_seconds", map[string]float64{"hash_correspondence": t1.Sub(t0).Seconds(), "fixtures": time.Since(t1).Seconds()})
-	}
-
-	// phase "wide": position-exhaustive tampering around multiples of the worker count (alone:
-	// it changes GOMAXPROCS)
-	tWide := time.Now()
-	runWide(f, res, nil)
-	res.SetExtra("wide_phase_seconds", time.Since(tWide).Seconds())
-	checkpoint(f, res)
+	}()
 
 	// phase 2: a directed history first (its report is the most detailed one), then independent
 	// chains in parallel
@@ -65,14 +71,20 @@ func main() {
 	// two passes: everything that cannot crash the process first; the result file is checkpointed
 	// before the nil-dereference tamperings of the second pass
 	for _, risky := range []bool{false, true} {
+		var jsonDone sync.WaitGroup
 		if risky {
 			// phase "json" (feeder JSON -> sn2core -> SanityCheckNewHeight on real fixture blocks) also
 			// contains nil-producing tamperings (a transaction version switched in the JSON): after
-			// the checkpoint as well
-			tJSON := time.Now()
-			runJSONTamper(f, res)
-			res.SetExtra("json_phase_seconds", time.Since(tJSON).Seconds())
+			// the checkpoint as well, next to the second pass
+			side.Wait()
 			checkpoint(f, res)
+			jsonDone.Add(1)
+			go func() {
+				defer jsonDone.Done()
+				tJSON := time.Now()
+				runJSONTamper(f, res)
+				res.SetExtra("json_phase_seconds", time.Since(tJSON).Seconds())
+			}()
 		}
 		var tasks []chainTask
 		chains := []int{100} // one chain of the pre-0.13.2 Pedersen format
@@ -102,6 +114,7 @@ func main() {
 		}
 		close(ch)
 		wg.Wait()
+		jsonDone.Wait()
 		checkpoint(f, res)
 	}
 	res.SetExtra("tamper_phase_seconds", time.Since(tTamper).Seconds())
